@@ -44,6 +44,31 @@ pub fn main(args: &[String]) {
     std::process::exit(0);
 }
 
+/// One API call of the caller, logged as `c call` / `c ret`. Returns true when the store
+/// must not be used any more (panic).
+fn call(s: &mut Store, dir: &str, it: &str, idle: u64) -> bool {
+    let t: Vec<&str> = it.split_whitespace().collect();
+    shim::logline(format!("c call {}", it));
+    let creates = shim::count_creates();
+    let (res, stop) = exec_op(s, dir, &t);
+    // the call may have handed requests to an idle worker (a flush, or a chunk
+    // rotation): let it run to its next gate before the result is recorded
+    if t[0] == "F" || shim::count_creates() != creates {
+        shim::settle(idle);
+    }
+    shim::logline(format!("c ret {}", res));
+    stop
+}
+
+/// Is the thread with this tid asleep (state S in /proc)?
+fn thread_asleep(tid: i64) -> bool {
+    let stat = std::fs::read_to_string(format!("/proc/self/task/{}/stat", tid)).unwrap_or_default();
+    match stat.rfind(')') {
+        Some(i) => stat[i + 1..].trim_start().starts_with('S'),
+        None => false,
+    }
+}
+
 fn run_trace(line: &str, dir: &str) -> String {
     let rest = line.strip_prefix("TRACE").unwrap_or(line);
     let parts: Vec<&str> = rest.split('|').collect();
@@ -141,18 +166,73 @@ fn run_trace(line: &str, dir: &str) -> String {
                     OpenRes::Panic => shim::logline("c panic".to_string()),
                 }
             }
+            "burst" => {
+                // N rounds of (append one entry, flush with callback) on a helper thread while
+                // the worker is held at its gate: the bounded request channel fills up and the
+                // caller blocks inside flush. The worker is let through one event at a time
+                // only while the caller is asleep (blocked in send).
+                let n: u64 = t.get(1).map(|s| pu(s)).unwrap_or(1040);
+                // only the last m rounds append an entry before the flush (the others are
+                // flushes with nothing pending: they fill the channel without growing the file)
+                let m: u64 = t.get(2).map(|s| pu(s)).unwrap_or(n);
+                if let Some(mut s) = st.take() {
+                    let (tx, rx) = std::sync::mpsc::channel();
+                    let tid = std::sync::Arc::new(std::sync::atomic::AtomicI64::new(0));
+                    let tid2 = tid.clone();
+                    let dir2 = dir.to_string();
+                    let h = std::thread::spawn(move || {
+                        tid2.store(unsafe { libc::syscall(libc::SYS_gettid) } as i64, std::sync::atomic::Ordering::SeqCst);
+                        let (term, mut idx) = {
+                            let l = s.rl.log_state().last().cloned();
+                            match l {
+                                Some(x) => (x.0, x.1 + 1),
+                                None => (1, 0),
+                            }
+                        };
+                        for k in 0..n {
+                            let mut stop = false;
+                            if k + m >= n {
+                                let a = format!("A {} {} x{:02x}", term, idx, idx & 0xff);
+                                stop = call(&mut s, &dir2, &a, idle);
+                                idx += 1;
+                            }
+                            if stop || call(&mut s, &dir2, "F 1", idle) {
+                                break;
+                            }
+                        }
+                        let _ = tx.send(s);
+                    });
+                    let mut asleep = 0;
+                    loop {
+                        match rx.recv_timeout(std::time::Duration::from_millis(1)) {
+                            Ok(s) => {
+                                st = Some(s);
+                                break;
+                            }
+                            Err(std::sync::mpsc::RecvTimeoutError::Timeout) => {
+                                let t = tid.load(std::sync::atomic::Ordering::SeqCst);
+                                if t != 0 && thread_asleep(t) {
+                                    asleep += 1;
+                                } else {
+                                    asleep = 0;
+                                }
+                                if asleep >= 3 {
+                                    shim::worker_step(idle);
+                                    asleep = 0;
+                                }
+                            }
+                            Err(std::sync::mpsc::RecvTimeoutError::Disconnected) => {
+                                shim::logline("c panic".to_string());
+                                break;
+                            }
+                        }
+                    }
+                    let _ = h.join();
+                }
+            }
             _ => {
                 if let Some(s) = st.as_mut() {
-                    shim::logline(format!("c call {}", it));
-                    let creates = shim::count_creates();
-                    let (res, stop) = exec_op(s, dir, &t);
-                    // the call may have handed requests to an idle worker (a flush, or a chunk
-                    // rotation): let it run to its next gate before the result is recorded
-                    if t[0] == "F" || shim::count_creates() != creates {
-                        shim::settle(idle);
-                    }
-                    shim::logline(format!("c ret {}", res));
-                    if stop {
+                    if call(s, dir, it, idle) {
                         std::mem::forget(st.take());
                     }
                 } else {
